@@ -248,51 +248,75 @@ func c02IdnaDiscipline(c *Ctx, fa, fb *ssa.Function) bool {
 		if f == nil || len(f.Params) != 1 {
 			return false
 		}
-		p := f.Params[0]
-		var conv *ssa.Call
-		bad := ""
-		var at ssa.Instruction
-		for _, r := range *p.Referrers() {
-			switch x := r.(type) {
-			case *ssa.DebugRef:
-			case *ssa.Defer:
-				// the error wrapper keeps the text as it was given
-			case *ssa.Call:
-				n := core.CalleeName(&x.Call)
-				if strings.Contains(n, "idna") && strings.HasSuffix(n, "ToASCII") {
-					if conv != nil {
-						bad, at = "the name is converted twice", x
-					}
-					conv = x
-					continue
-				}
-				bad, at = "the raw name is handed to "+n+" (the converted name is what is validated)", x
-			default:
-				bad, at = "the raw name is used by "+core.Describe(x.(ssa.Value))+" — lengths and labels are those of the converted name", r
-			}
-		}
-		if bad == "" && conv == nil {
-			bad = "no idna conversion of the parameter"
-		}
-		if bad == "" {
-			for _, ret := range core.Returns(f) {
-				if f.Recover != nil && ret.Block() == f.Recover {
-					continue // the way out after a recovered panic
-				}
-				if !core.Dominates(conv, ret) {
-					bad, at = "a return is reached without the conversion", ret
-				}
-			}
-		}
-		if conv != nil {
-			callee[f] = core.CalleeName(&conv.Call)
-		}
-		c.check(bad == "", rule, f, "the parameter is used only by the Punycode conversion, which lies on every path", at, bad)
-		if bad != "" {
+		n, ok := idnaDisciplineOne(c, rule, f)
+		callee[f] = n
+		if !ok {
 			okAll = false
 		}
 	}
 	same := callee[fa] != "" && callee[fa] == callee[fb]
 	c.check(same, rule, fb, "both twins convert with the same function", nil, sprintf("%s calls %s, %s calls %s", fa.Name(), callee[fa], fb.Name(), callee[fb]))
 	return okAll && same
+}
+
+// validatorDiscipline: the properties that speak of "a valid domain name"
+// (ARPA decoding, hosts records) leave ValidateDomainName uninterpreted in
+// their exact rules; what they rely on is checked here under their own name:
+// the validator measures and cuts the Punycode form of its argument, never the
+// raw text (a length test on the raw name, or an ASCII fast path around the
+// conversion, changes which names are valid without touching the decoders).
+func validatorDiscipline(c *Ctx, prop string) {
+	rule := prop + ".validator-discipline"
+	c.L.Floor(rule, 1)
+	f := c.fn("netutil", "ValidateDomainName")
+	if f == nil || len(f.Params) != 1 {
+		c.undecided(rule, f, "ValidateDomainName(name string)", nil, "not found with one parameter")
+		return
+	}
+	idnaDisciplineOne(c, rule, f)
+}
+
+func idnaDisciplineOne(c *Ctx, rule string, f *ssa.Function) (string, bool) {
+	p := f.Params[0]
+	var conv *ssa.Call
+	bad := ""
+	var at ssa.Instruction
+	for _, r := range *p.Referrers() {
+		switch x := r.(type) {
+		case *ssa.DebugRef:
+		case *ssa.Defer:
+			// the error wrapper keeps the text as it was given
+		case *ssa.Call:
+			n := core.CalleeName(&x.Call)
+			if strings.Contains(n, "idna") && strings.HasSuffix(n, "ToASCII") {
+				if conv != nil {
+					bad, at = "the name is converted twice", x
+				}
+				conv = x
+				continue
+			}
+			bad, at = "the raw name is handed to "+n+" (the converted name is what is validated)", x
+		default:
+			bad, at = "the raw name is used by "+core.Describe(x.(ssa.Value))+" — lengths and labels are those of the converted name", r
+		}
+	}
+	if bad == "" && conv == nil {
+		bad = "no idna conversion of the parameter"
+	}
+	if bad == "" {
+		for _, ret := range core.Returns(f) {
+			if f.Recover != nil && ret.Block() == f.Recover {
+				continue // the way out after a recovered panic
+			}
+			if !core.Dominates(conv, ret) {
+				bad, at = "a return is reached without the conversion", ret
+			}
+		}
+	}
+	name := ""
+	if conv != nil {
+		name = core.CalleeName(&conv.Call)
+	}
+	c.check(bad == "", rule, f, "the parameter is used only by the Punycode conversion, which lies on every path", at, bad)
+	return name, bad == ""
 }
